@@ -11,6 +11,7 @@ import (
 	"strconv"
 	"strings"
 	"sync"
+	"syscall"
 
 	"verif/harness/sx"
 )
@@ -140,6 +141,15 @@ func main() {
 		}
 		ncorpus := len(cases)
 		cases = append(cases, generate(prop, tier, rng)...)
+		if prop == "C18" {
+			// a redirect walk that never ends opens one cache file per hop: with a modest descriptor limit it ends
+			// in an error answer within a second instead of taking the process (and every other case) down
+			var lim syscall.Rlimit
+			if syscall.Getrlimit(syscall.RLIMIT_NOFILE, &lim) == nil && lim.Cur > 4096 {
+				lim.Cur = 4096
+				syscall.Setrlimit(syscall.RLIMIT_NOFILE, &lim)
+			}
+		}
 		fmt.Fprintf(os.Stderr, "hx: %s %s seed=%d corpus=%d generated=%d\n", prop, tier, seed, ncorpus, len(cases)-ncorpus)
 		runAll(prop, cases)
 	case "crashop":
@@ -228,17 +238,18 @@ func runAll(prop string, cases []Case) {
 	out := bufio.NewWriterSize(os.Stdout, 1<<20)
 	defer out.Flush()
 	bad := 0
-	for _, r := range results {
+	for i, r := range results {
 		if r.err != nil {
+			// a case the harness could not bring to an end (a request that never completes, a key left locked ...):
+			// reported as an observation of its own, which the check counts as a disagreement with the model
 			bad++
 			fmt.Fprintf(os.Stderr, "hx: harness error: %v\n", r.err)
+			fmt.Fprintln(out, sx.S(prop).String()+"\t"+cases[i].Sx().String()+"\t"+sx.L(sx.S("harness-error"), sx.S(r.err.Error())).String())
 			continue
 		}
 		fmt.Fprintln(out, r.line)
 	}
 	if bad > 0 {
 		fmt.Fprintf(os.Stderr, "hx: %d cases could not be run\n", bad)
-		out.Flush()
-		os.Exit(3)
 	}
 }
